@@ -18,7 +18,7 @@ import traceback
 
 ROOT = os.path.dirname(os.path.dirname(os.path.abspath(__file__)))
 REPLAYS = os.path.join(ROOT, "replays")
-EVIDENCE = os.path.join(ROOT, "evidence")
+EVIDENCE = os.environ.get("VERIF_EVIDENCE_DIR") or os.path.join(ROOT, "evidence")   # the override is a development aid (runs against seeded trees)
 KNOWN = os.path.join(ROOT, "known_findings.txt")
 
 
@@ -192,6 +192,8 @@ def main(argv=None):
     sys.path.insert(0, ROOT)
     mod = importlib.import_module("harness." + pid)
     insts = mod.instances(tier)
+    if os.environ.get("VERIF_ONLY"):   # development aid: run the instances whose name contains the given text (never set by the registered commands)
+        insts = [i_ for i_ in insts if os.environ["VERIF_ONLY"] in i_["name"]]
     nproc = int(os.environ.get("VERIF_NPROC", "0") or 0) or min(16, os.cpu_count() or 4)
     per_inst = getattr(mod, "INSTANCE_TIMEOUT", {"quick": 240, "thorough": 1500})[tier]
     results = run_instances(pid, insts, tier, nproc, per_inst)
@@ -207,6 +209,10 @@ def main(argv=None):
         for k, v in r.get("aborted", {}).items():
             aborted[k] = aborted.get(k, 0) + v
         inconclusive += [f"{r['name']}: {x}" for x in r.get("inconclusive", [])]
+        ab = sum(r.get("aborted", {}).values())
+        if r.get("paths", 0) >= 1 and ab >= r.get("paths", 0) and not r.get("obligations", 0):
+            # vacuity guard per instance: nothing was decided here (the global guard below only sees the whole check)
+            inconclusive.append(f"{r['name']}: every explored path was abandoned before an obligation ({r.get('aborted')}) - nothing decided by this instance")
         errors += [f"{r['name']}: {x}" for x in r.get("errors", [])]
         candidates += r.get("candidates", [])
         validations += r.get("validations", [])
